@@ -759,3 +759,11 @@ package appencryption
 //@   requires wfE(e) && sk != nil && sk.secret != nil
 //@   ensures [C03:system-key-wrapped-by-the-kms-only] ncalls(EncryptKey) == 1 && ncalls(Encrypt) == 0 && (retis(EncryptKey, 1, 1, nil) ==> keyof(arr(arg(EncryptKey, 1, key))) == sk.secret)
 //@   ensures [C03:stored-record-holds-the-kms-output] ncalls(Store) == 1 && (ret(Store, 1, 0) == ret(Store, 1, 0) ==> arg(Store, 1, envelope).EncryptedKey == ret(EncryptKey, 1, 0) && arg(Store, 1, envelope).ParentKeyMeta == nil && arg(Store, 1, keyID) == sysid(e.partition))
+
+// ================= C18: documented record shapes =================
+// The JSON documents (docs/DesignAndArchitecture.md, the cross-language tests): field names, Go types and json tags of the
+// record types, as encoding/json and the metastore plugins see them (ID travels as the table key, never inside the
+// document; Revoked and ParentKeyMeta only when set; byte slices are base64 in JSON).
+//@ wire (KeyMeta) [C18:key-meta-json-shape] ID:string:"KeyId" Created:int64:"Created"
+//@ wire (DataRowRecord) [C18:data-row-record-json-shape] Key:*EnvelopeKeyRecord:"Key" Data:[]byte:"Data"
+//@ wire (EnvelopeKeyRecord) [C18:envelope-key-record-json-shape] Revoked:bool:"Revoked,omitempty" ID:string:"-" Created:int64:"Created" EncryptedKey:[]byte:"Key" ParentKeyMeta:*KeyMeta:"ParentKeyMeta,omitempty"
